@@ -24,7 +24,7 @@ hdr = ("### 8.4 Seeded defects (written by sub-agents that saw only a property's
        "Round 3 (ids 7-9, twelve properties, agents told which mechanisms and sites rounds 1-2 had used and asked for different ones): same columns.  "
        "Round 4 (ids 10-12, the eight properties that had no round 3: C02 C04 C08 C10 C12 C16 C17 C20; same instructions as round 3).  "
        "Round 5 (ids 10-12 of the twelve round-3 properties; agents given the sites and a longer list of mechanisms of rounds 1-3 to avoid).  "
-       "Round 6 (ids 13-15 of the eight round-4 properties), round 7 (ids 13-15 of the twelve round-3/5 properties) round 8 (ids 16-18 of the eight round-4/6 properties) round 9 (ids 16-18 of C07 C09 C13 C14 C15 C18, a half round) and round 10 (ids 16-18 of C01 C03 C05 C06 C11 C19, a half round): same instructions, with the sites and mechanisms of all earlier rounds excluded.  "
+       "Round 6 (ids 13-15 of the eight round-4 properties), round 7 (ids 13-15 of the twelve round-3/5 properties) round 8 (ids 16-18 of the eight round-4/6 properties) round 9 (ids 16-18 of C07 C09 C13 C14 C15 C18, a half round), round 10 (ids 16-18 of C01 C03 C05 C06 C11 C19, a half round) and round 11 (ids 19-20 of the eight round-4/6/8 properties, two seeds per agent): same instructions, with the sites and mechanisms of all earlier rounds excluded.  "
        "`not-decided` seeds that a later rule decides keep their at-delivery entry; the note says which rule decides them now.  "
        "Six older seeds whose patches no longer applied after later fix: commits were re-written by hand for HEAD (`ported` in meta.json).\n\n"
        "| seed | round | where | what it does | at delivery | verdict of the checks now | first report |\n|---|---|---|---|---|---|---|\n")
